@@ -129,6 +129,24 @@ var c07RHS = []rhsGen{
 		v[":i"] = val.Num("10")
 		return &refmodel.UExpr{Kind: "plus", Kids: []*refmodel.UExpr{uv(":i"), up(pth("m", "k", "y"))}}
 	}},
+	{"minus-vp", func(v val.Item) *refmodel.UExpr {
+		v[":i"] = val.Num("100")
+		return &refmodel.UExpr{Kind: "minus", Kids: []*refmodel.UExpr{uv(":i"), up(pth("n"))}}
+	}},
+	{"minus-vp-nested", func(v val.Item) *refmodel.UExpr {
+		v[":i"] = val.Num("10")
+		return &refmodel.UExpr{Kind: "minus", Kids: []*refmodel.UExpr{uv(":i"), up(pth("l", 2, 1))}}
+	}},
+	{"minus-v-ifne", func(v val.Item) *refmodel.UExpr {
+		v[":i"] = val.Num("10")
+		v[":d"] = val.Num("3")
+		return &refmodel.UExpr{Kind: "minus", Kids: []*refmodel.UExpr{uv(":i"), {Kind: "ifne", Path: pth("cnt"), Kids: []*refmodel.UExpr{uv(":d")}}}}
+	}},
+	{"minus-vv", func(v val.Item) *refmodel.UExpr {
+		v[":i"] = val.Num("10")
+		v[":d"] = val.Num("3")
+		return &refmodel.UExpr{Kind: "minus", Kids: []*refmodel.UExpr{uv(":i"), uv(":d")}}
+	}},
 	{"minus-pp", func(v val.Item) *refmodel.UExpr {
 		return &refmodel.UExpr{Kind: "minus", Kids: []*refmodel.UExpr{up(pth("n")), up(pth("l", 1))}}
 	}},
